@@ -810,7 +810,7 @@ T = {
  "C20-8": dict(
     change="x/tradeshield/keeper/msg_server_perpetual_order.go CancelPerpetualOrders: the batch loop builds each inner cancel with the STORED owner of the order, so the owner guard compares the owner with itself",
     needs="MsgCancelPerpetualOrders from somebody who does not own a listed order",
-    caught_by="C20.owner_only in ts-focused histories (batch cancels)",
+    caught_by="C20.owner_only in ts-focused histories (batch cancels); C20Src.gen_free_batch_cancel (the inner cancel is no longer made in the name of the message's own signer field) since the loop bodies were translated",
     history="MISSED at first (the grammar had the single-order cancels only); batch cancels of one to three orders, now and then with a stranger's order or a stranger's signature, added with the owner-only clause for them; caught since"),
 }
 
